@@ -117,6 +117,83 @@ def self_ref(kind: int, mv: int) -> str:
     return _check_table(snaps[0], {"a": 1}, None)
 
 
+class Job:
+    def __init__(self, name, exc):
+        self.name = name
+        self.tags = ["t1", "t2"]
+        self._exc = exc
+
+    def __repr__(self):
+        raise self._exc("job repr failed")
+
+
+EXCS = [ValueError, RuntimeError, KeyboardInterrupt, SystemExit, GeneratorExit]
+HW = ["QUEUE", "QUEUE[0].name", "QUEUE[0].tags", "[QUEUE[0]]", "QUEUE[0]", "len(QUEUE)"]
+
+
+def hostile_watch(ek: int, w1: int, w2: int, w3: int, where: int) -> str:
+    """
+    A value reached only by watches whose str()/repr() raises (Exception or a BaseException subclass), followed by
+    watches that reach its sub-objects: whatever becomes of the failing watch, every reference still resolves.
+    PRE: 0 <= ek <= 4 and 0 <= w1 <= 5 and 0 <= w2 <= 5 and 0 <= w3 <= 5 and 0 <= where <= 1
+    POST: _ == ""
+    """
+    world.begin_path()
+    from deep.api.tracepoint.trigger import LocationAction, LineLocation, Trigger, Location
+    ek, w1, w2, w3, where = [world.realize(x) for x in (ek, w1, w2, w3, where)]
+    queue = [Job("alpha", EXCS[ek])]
+    f_locals, f_globals = {"z": 1}, {}
+    if where == 0:
+        f_globals["QUEUE"] = queue          # reached by watches only (a module global)
+    else:
+        f_locals["QUEUE"] = queue           # also in the frame
+    watches = [HW[w1], HW[w2], HW[w3]]
+    w = World()
+    cfg = {"fire_count": -1, "fire_period": 0, "watches": watches}
+    act = LocationAction("tp1", None, cfg, LocationAction.ActionType.Snapshot)
+    w.install([Trigger(LineLocation("f.py", 7, Location.Position.START), [act])])
+    w.event(FakeFrame("/app/f.py", "fn", 7, f_locals, f_globals), "line", None)
+    world.reached()
+    if len(w.push.snapshots) != 1:
+        return "C07:no-snapshot"
+    s = w.push.snapshots[0]
+    if [x.expression for x in s.watches] != watches:
+        return "C07:watch-list"
+    return _check_table(s, {"z": 1}, None)
+
+
+FW = ["b * 3.5", "a + 1000", "a * 7.25", "n * 100000", "n + 99999", "s * 3", "s + 'zz'", "[a]", "(a, b)", "{'k': a}", "a", "n"]
+
+
+def fresh_watches(w1: int, w2: int, w3: int, k: int) -> str:
+    """
+    Watches whose values are fresh temporaries (the result object dies as soon as the agent drops it): each watch result
+    is still the value of ITS expression in the frame - two different objects never end up behind one id.
+    PRE: 0 <= w1 <= 11 and 0 <= w2 <= 11 and 0 <= w3 <= 11 and 2 <= k <= 3
+    PRE: k == 3 or w3 == 0
+    POST: _ == ""
+    """
+    world.begin_path()
+    w1, w2, w3, k = [world.realize(x) for x in (w1, w2, w3, k)]
+    f_locals = {"a": 4.0, "b": 2.5, "n": 7, "s": "ab"}
+    watches = [FW[w1], FW[w2], FW[w3]][:k]
+    snaps = _snapshot(f_locals, 1000, watches)
+    world.reached()
+    if len(snaps) != 1:
+        return "C07:no-snapshot"
+    s = snaps[0]
+    if [x.expression for x in s.watches] != watches:
+        return "C07:watch-list"
+    for x in s.watches:
+        val = eval(x.expression, {}, dict(f_locals))
+        if x.result is None or x.result.vid not in s.var_lookup:
+            return "C07:dangling-root-reference(frame-or-watch)"
+        v = s.var_lookup[x.result.vid]
+        if v.type != type(val).__name__ or v.value != reader.text_of(val):
+            return "C07:watch-result-is-another-object's-entry(id reused)"
+    return _check_table(s, f_locals, None)
+
+
 def _mut_id_reuse():
     from deep.processor.variable_set_processor import VariableCacheProvider
 
@@ -137,7 +214,12 @@ def _mut_merge_drops():
     EventSnapshot.merge_var_lookup = lambda self, lookup: None
 
 
-MUTANTS = {"id_reuse": _mut_id_reuse, "no_dedup": _mut_no_dedup, "merge_drops": _mut_merge_drops}
+def _mut_no_keep_alive():
+    from deep.processor.variable_set_processor import VariableCacheProvider
+    VariableCacheProvider.keep_alive = lambda self, value: None
+
+
+MUTANTS = {"no_keep_alive": _mut_no_keep_alive, "id_reuse": _mut_id_reuse, "no_dedup": _mut_no_dedup, "merge_drops": _mut_merge_drops}
 
 CONDITIONS = [
     dict(fn="table", cubes={"quick": ["t == %d and n == %d and wi == %d" % (t, 0 if t in (5, 6) else 2, w) for t in range(9) for w in (0, 1, 2, 7)],
@@ -145,6 +227,14 @@ CONDITIONS = [
          twins=["reach", "mutant:id_reuse@t == 5 and n == 0 and wi == 7", "mutant:no_dedup@t == 5 and n == 0 and wi == 7", "mutant:merge_drops@t == 0 and n == 2 and wi == 1"],
          timeout={"quick": 240, "thorough": 900},
          bounds="9 graph templates (incl. shared and cyclic) x 8x8 watch pairs (quick: first watch from 4) x UNBOUNDED symbolic max_variables"),
+    dict(fn="hostile_watch", cubes={"quick": ["ek == %d and where == %d and w3 == 1" % (e, wh) for e in range(5) for wh in range(2)],
+                                    "thorough": ["ek == %d and where == %d" % (e, wh) for e in range(5) for wh in range(2)]},
+         twins=["reach"], timeout={"quick": 240, "thorough": 900},
+         bounds="a list holding an object whose __repr__ raises one of 5 exception classes (2 Exception, 3 BaseException-only), as module global (watch-only) or local; "
+                "all 6^2 pairs (thorough 6^3 triples) of watches over it and its sub-objects"),
+    dict(fn="fresh_watches", cubes={"quick": ["k == 2 and w1 %s" % a for a in ("<= 3", "in (4, 5, 6, 7)", ">= 8")] + ["k == 3 and w1 == 0 and w2 == 1", "k == 3 and w1 == 3 and w2 == 4"],
+                                    "thorough": ["k == 3 and w1 == %d and w2 == %d" % (a, b) for a in range(12) for b in range(12)]},
+         twins=["reach", "mutant:no_keep_alive@k == 2 and w1 <= 3"], bounds="all pairs (thorough: triples) of 12 watch expressions producing fresh floats / ints / strings / containers over 4 locals"),
     dict(fn="self_ref", cubes=["kind == %d" % k for k in range(3)], twins=["reach"],
          bounds="locals containing the locals mapping directly / inside a list / reached by the watch 'locals()'; symbolic max_variables"),
 ]
